@@ -383,10 +383,24 @@ package objects
 
 // the shim's predicate is an oracle: "accepted" is the token predOK(ask key, node id)
 //@ spec abstract predOK(allocKey string, nodeID string) bool
+// predOK(ask key, node id): the shim's predicate plugin was asked for exactly this ask on exactly this node with the
+// allocate flag set, and answered nil - or no plugin is registered (nothing to ask). The plugin itself is the assumed
+// oracle (contracts/assumed/api.spec); that it IS asked, with these arguments, on every path is proved here.
+//@ spec abstract noplugin() bool
+//@ spec predOK(allocKey string, nodeID string) bool = noplugin() || predOK3(allocKey, nodeID, true)
+//@ func (sn *Node) preConditions(ask *Allocation, allocate bool) (err error)
+//@   props C01
+//@   sweep
+//@   mode nopanic=off
+//@   at[plugin] call plugins.GetResourceManagerCallbackPlugin#1 after: assume (ret == nil) <==> noplugin()
+//@   at[asked] call api.ResourceManagerCallback.Predicates#1: assert arg1 != nil && arg1.AllocationKey == ask.allocationKey && arg1.NodeID == sn.NodeID && arg1.Allocate == allocate
+//@   ensures[accepted] err == nil ==> noplugin() || predOK3(ask.allocationKey, sn.NodeID, allocate)
+
 //@ func (sn *Node) preAllocateConditions(ask *Allocation) (err error)
 //@   props C01
-//@   trusted "shim predicate plugin (external oracle); on failure only the ask's allocation log is written"
-//@   assigns ask.allocLog[*]
+//@   sweep
+//@   mode nopanic=off
+//@   at[allocate] call objects.Node.preConditions#1: assert arg0 == sn && arg1 == ask && arg2
 //@   ensures err == nil ==> predOK(ask.allocationKey, sn.NodeID)
 
 // every scheduler bind goes through tryNode: the bind gate is reached only after the pre-check (fits, positive,
@@ -429,11 +443,13 @@ package objects
 //@   at[samenode] call objects.Application.tryNode#1: assert arg2 == request && arg1 == node
 
 //@ func (sa *Application) tryReservedAllocate(headRoom *resources.Resource, nodeIterator func() NodeIterator) (res *AllocationResult)
-//@   props C01 C05 C02 C04
+//@   props C01 C05 C02 C04 C09
 //@   sweep
 //@   mode nopanic=off
 //@   at[schedulable:C01] call objects.Application.tryNode#1: assert arg1.schedulable
 //@   at[headrooms:C05,C02,C04] call objects.Application.tryNode#1: assert arg2 == ask && fitsHR(userHeadroom, ask.allocatedResource) && fitsHR(headRoom, ask.allocatedResource) && !ask.allocated
+//@   at[timeoutqueue:C09] call objects.Queue.UnReserve#1: assert arg0 == sa.queue && arg1 == sa.ApplicationID && arg2 == num
+//@   at[timeoutresv:C09] call objects.Application.unReserveInternal#1: assert arg0 == sa && arg1 == reserve
 //@   at[headrooms:C05,C02] call objects.Application.tryNodesNoReserve#1: assert arg1 == alloc && fitsHR(userHeadroom, alloc.allocatedResource) && fitsHR(headRoom, alloc.allocatedResource)
 
 // the non-forced bind gate has exactly two callers; both carry the gate obligations (tryNode above, the cross-node
@@ -905,10 +921,16 @@ package objects
 // completion is only requested when nothing is outstanding: no pending ask, no real allocation (and, when asks are
 // removed, no placeholder allocation and not already completing or failing)
 //@ func (sa *Application) removeAsksInternal(allocKey string, detail si.EventRecord_ChangeDetail) (n int)
-//@   props C10 C03
+//@   props C10 C03 C09
 //@   sweep
 //@   mode nopanic=off
 //@   at[nothingleft] call objects.Application.HandleApplicationEvent#1: assert arg1 == CompleteApplication && appZero(sa) && appState(sa) != "Completing" && appState(sa) != "Failing"
+//@   loop 1: exhaustive
+//@   loop 1: each ncalls(objects.Application.unReserveInternal) == iter(ncalls(objects.Application.unReserveInternal)) + 1
+//@   at[allresv:C09] call objects.Application.unReserveInternal#1: assert arg0 == sa && arg1 == reserve
+//@   at[queueresv:C09] call objects.Queue.UnReserve#1: assert arg0 == sa.queue && arg1 == sa.ApplicationID && arg2 == toRelease && allocKey == ""
+//@   at[oneresv:C09] call objects.Application.unReserveInternal#2: assert arg0 == sa && arg1 == old(sa.reservations[allocKey]) && allocKey != ""
+//@   at[queueone:C09] call objects.Queue.UnReserve#2: assert arg0 == sa.queue && arg1 == sa.ApplicationID && arg2 == releases
 //@   at[queuepending:C03] call objects.Queue.decPendingResource#1: assert arg0 == sa.queue && (allocKey == "" ==> arg1 == old(sa.pending)) && (allocKey != "" ==> ((old(sa.requests[allocKey]) != nil && !old(sa.requests[allocKey].allocated)) ? arg1 == old(sa.requests[allocKey].allocatedResource) : arg1 == nil))
 //@   at[apppending:C03] call objects.Queue.decPendingResource#1: assert (allocKey == "" ==> (forall t Key :: rv(sa.pending, t) == 0)) && (allocKey != "" && arg1 != nil ==> (forall t Key :: rv(sa.pending, t) == clamp64(old(rv(sa.pending, t)) - rv(arg1, t)))) && (allocKey != "" && arg1 == nil ==> sa.pending == old(sa.pending))
 //@   ensures[completes] old(len(sa.requests)) != 0 && appZero(sa) && old(appState(sa)) != "Completing" && old(appState(sa)) != "Failing" && noPlaceholders(sa) ==> ncalls(objects.Application.HandleApplicationEvent) == 1
@@ -1260,3 +1282,25 @@ package objects
 //@   at[after] call time.Time.After#1: assert a.priority == other.priority
 //@   at[equal] call time.Time.Equal#1: assert a.priority == other.priority
 //@   ensures[priority] a.priority != other.priority ==> r == (a.priority < other.priority)
+
+// quota-change preemption only starts once the configured delay has elapsed: a new start time is "now + delay", an already
+// planned start time moves by exactly (new delay - old delay) - later when the delay grows, earlier when it shrinks
+//@ func (sq *Queue) setPreemptionTime(oldMaxResource *resources.Resource, oldDelay time.Duration)
+//@   props C08
+//@   sweep
+//@   mode nopanic=off
+//@   at[fromnow1] call time.Time.Add#1: assert arg1 == sq.quotaPreemptionDelay && ncalls(time.Now) == 1
+//@   at[shift1] call time.Time.Add#2: assert arg1 == wrap64(sq.quotaPreemptionDelay - oldDelay) && ncalls(time.Now) == 0
+//@   at[shift2] call time.Time.Add#3: assert arg1 == wrap64(sq.quotaPreemptionDelay - oldDelay) && ncalls(time.Now) == 0
+//@   at[fromnow2] call time.Time.Add#4: assert arg1 == sq.quotaPreemptionDelay && ncalls(time.Now) == 1
+//@   at[shift3] call time.Time.Add#5: assert arg1 == wrap64(sq.quotaPreemptionDelay - oldDelay) && ncalls(time.Now) == 0
+
+// additional (queue level) victims never repeat a victim already chosen for the node: every candidate was checked
+// against the set of node victims, which holds every node victim that belongs to a known queue snapshot
+//@ func (p *Preemptor) calculateAdditionalVictims(nodeVictims []*Allocation) (out []*Allocation, ok bool)
+//@   props C07
+//@   sweep
+//@   mode nopanic=off
+//@   loop 1: exhaustive
+//@   at[notdup] append potentialVictims#1: assert elem == victim && !(victim.allocationKey in seen)
+//@   at[kept] append victims#1: assert elem == victim
